@@ -10,13 +10,13 @@ from specs.common import run, ASSUME_COMMON
 #  e2-threads  tsan + perturbation shim: 2..8 threads running independent programs concurrently
 SPEC = {
     "runs": [
-        run("e1-model", "c10_context", "asan", 3000, 300000, need_lib=False, params={"mode": "seq"}),
+        run("e1-model", "c10_context", "asan", 3000, 200000, need_lib=False, params={"mode": "seq"}),
         run("e1-nullkey", "c10_context_nullkey", "asan", 400, 20000, sq=2, st=8, need_lib=False,
             sources=["harness/c10_context.cc"], params={"mode": "nullkey"},
             cxxflags=["-fsanitize-recover=nonnull-attribute"],
             env={"UBSAN_OPTIONS": "print_stacktrace=1:halt_on_error=0:exitcode=67"}),
         # header-only target: the shim runtime is compiled into the harness instead of linking the SDK library
-        run("e2-threads", "c10_context", "tsan", 200, 40000, need_lib=False, params={"mode": "mt"},
+        run("e2-threads", "c10_context", "tsan", 200, 20000, need_lib=False, params={"mode": "mt"},
             sources=["harness/c10_context.cc", "vf/shim/vf_runtime.cc"]),
     ],
     "floors": {
@@ -25,7 +25,7 @@ SPEC = {
                   "empty_collections": 100, "scope_destroys_not_on_top": 200, "mt_cases_ge4_threads": 30},
         "thorough": {"detach_out_of_order": 50000, "programs_deeper_than_32": 20000, "programs_double_attach": 20000,
                      "detach_foreign": 10000, "attaches_growing_the_stack": 100000, "setvalue_shadowing": 100000,
-                     "empty_collections": 5000, "scope_destroys_not_on_top": 20000, "mt_cases_ge4_threads": 2000},
+                     "empty_collections": 5000, "scope_destroys_not_on_top": 20000, "mt_cases_ge4_threads": 3000},
     },
     "engine": "E1 model-oracle",
     "engines_used": ["E1 model-oracle", "E2 history"],
@@ -56,7 +56,7 @@ SPEC = {
              "contexts. A case is non-trivial if it created a context or attached one; distinct = distinct hash of "
              "the operation/argument sequence."),
     "assumptions": ASSUME_COMMON + [
-        "context identity (what Detach matches on) is identity of the node list: copies of a Context are the same context, every SetValue/SetValues result is a new one, all empty contexts are one and the same",
+        "context identity (what Detach matches on) is identity of the node list: copies of a Context are the same context, every SetValue/SetValues result is a new one, all empty contexts are one and the same; whether SetValues/Context of an EMPTY collection yields a new context or the same one as its source is not judged (such contexts are never attached themselves, counted as attach_skipped_identity_dontcare)",
         "HasKey of a key explicitly bound to monostate is not judged (counted as haskey_monostate_binding_dontcare); GetValue of it is (monostate shadows the older binding)",
         "two equal keys inside ONE SetValues collection are never generated (which one wins is outside the statement)",
         "the return value of Detach for a token of the empty context on an empty stack is taken as true (the empty context is the top of the empty stack), as documented in DESIGN.md",
